@@ -555,3 +555,40 @@ Proof.
   destruct (search_ok rate _ q F Hr (quanta_pos 400 1 ltac:(lia)) E) as (Hq & HF & H1).
   unfold wf, within_1pct. cbn [capacity quantum fillInterval]. repeat split; assumption.
 Qed.
+
+(* ------------------------------------------------------------ statements used by Properties/C19.v *)
+Lemma bound_inhabited :
+  new_bucket_with_rate 1000 1000 = Some p1000 /\ wf p1000 /\ within_1pct 1000 p1000 /\
+  sorted_from 0 [(0, 600); (0, 600); (5, 1000)] /\ counts_in 1000 [(0, 600); (0, 600); (5, 1000)] /\
+  run p1000 (binit p1000) [(0, 600); (0, 600); (5, 1000)] = [(0, 600); (200000000, 600); (1200000000, 1000)].
+Proof.
+  split; [exact search_1000|]. split; [unfold wf; cbn; lia|]. split; [unfold within_1pct; cbn; lia|].
+  split; [cbn; lia|]. split; [repeat constructor; cbn; lia|]. vm_compute. reflexivity.
+Qed.
+
+Definition full_statement : Prop :=
+  forall rate p reqs s e, wf p -> 0 < rate -> capacity p = rate -> within_1pct rate p ->
+  0 <= s <= e -> sorted_from 0 reqs -> Forall (fun tc => 0 < snd tc) reqs ->
+  100 * 1000000000 * released s e (run p (binit p) reqs)
+  <= 101 * rate * (e - s) + 100 * 1000000000 * (rate + 2 * quantum p).
+
+Lemma full_refuted : ~ full_statement.
+Proof.
+  intro H.
+  specialize (H 1000 p1000 [(0, server_appDataMaxLength)] 15401000000 15401000000).
+  rewrite (proj2 small_rate_burst) in H.
+  assert (100 * 1000000000 * 16401 <= 101 * 1000 * (15401000000 - 15401000000) + 100 * 1000000000 * (1000 + 2 * quantum p1000)).
+  { apply H; try lia.
+    - unfold wf, p1000. cbn [capacity quantum fillInterval]. lia.
+    - reflexivity.
+    - unfold within_1pct, p1000. cbn [capacity quantum fillInterval]. lia.
+    - cbn [sorted_from]. lia.
+    - repeat constructor. }
+  unfold p1000 in H0. cbn [quantum] in H0. lia.
+Qed.
+
+Lemma run_gaps_zero : forall p cs st t, run_gaps p st t (map (fun c => (0, c)) cs) = run_seq p st t cs.
+Proof.
+  induction cs as [|c cs IH]; intros st t; cbn [map run_gaps run_seq]; [reflexivity|].
+  rewrite Z.add_0_r. destruct (take p st t c) as [st' w]. now rewrite IH.
+Qed.
